@@ -164,3 +164,16 @@ chk("C11", "static analysis: MaybeUninit init-typestate (dominance on the pruned
     "same generated function and count identically.",
     "Trusted: rustc MIR and macro expansion; macro hygiene keeps the counter/array unnameable from user tokens. Values "
     "computed by user closures are opaque (marker functions).")
+chk("C15", "static analysis: linear-use analysis of macro expansions in a witness crate (MIR), container read/advance/drop-range rules and field-writer invariants",
+    "destructure! is expanded for braced structs (plain, reordered, renamed, `_` field, annotated), a tuple struct, a packed "
+    "struct, a struct with ZST fields, tuples of arity 1,2,3,5,8,16, a tuple with `_`, and arrays (all elements, prefix+rest+"
+    "suffix, rest only, prefix+rest, rest+suffix, `_`, `..`): in the MIR the value must be moved into ManuallyDrop exactly once "
+    "and never dropped as a whole, each field/element read exactly once from a distinct projection/offset of that one pointer "
+    "in pattern order (array offsets must tile the array: 1 per element, rest length per rest part), packed fields with "
+    "read_unaligned, and the bound values returned are exactly those reads. ArrayConsumer: next/next_back read "
+    "array[taken_front] / array[N-taken_back-1] only when the live range is non-empty and advance only their counter; "
+    "as_slice/as_mut_slice/Drop cover exactly [taken_front, N-taken_back); new/empty establish the invariant; "
+    "assert_is_empty forgets only an empty consumer; only new/empty/next/next_back/clone/copy write the counters; "
+    "ArrayBuilder's Drop covers [0,inited). Exactly-once then follows from the range invariant by induction over operations.",
+    "Trusted: rustc MIR/expansion; rustc's exhaustive-pattern check for the field set; the by-value map protocol is C11's BYVAL "
+    "rule. Unwinding paths (cleanup blocks) are not analysed.")
